@@ -62,41 +62,82 @@ func TestC20Conversions(t *testing.T) {
 }
 
 type c20Pair struct {
-	Now, Slot uint32
-	Power     uint64
+	Offset, Now, Slot uint32
+	Power             uint64
 }
 
+// c20Top is the largest window offset whose whole two-week window is
+// expressible in 32-bit timeslots (a multiple of 2016 with offset+4032 <= 2^32).
+const c20Top = uint32(2016 * 2130438)
+
 func TestC20AcceptanceNoWrap(t *testing.T) {
-	ev.Rule("C20(c): one server with the window at offset 0 and the rotation loop gated; rapid draws (now, slot) pairs with now at the uint32 extremes (0..500, 2^31+-k, 2^32-1-k) and slots inside the stored window, each as a validly signed report; oracle = int64 predicate |slot-now|<=432 and 0<=slot<4032; non-trivial = pair within 1000 of a uint32 extreme; distinct by (now, slot)")
+	ev.Rule("C20(c): two servers with the rotation loop gated: one with the window at offset 0, one whose window is the last one expressible in 32 bits (offset 4294963008, obtained from a data directory whose archive ends with that week label); rapid draws (server, now, slot) with now at the uint32 extremes (0..500, 2^31+-k, 2^32-1-k, around the top window) and slots inside and around the stored window, and slots a wrapped comparison would take for close, each as a validly signed report; oracle = int64 predicate |slot-now|<=432 and offset<=slot<offset+4032; non-trivial = pair within 1000 of a uint32 extreme; distinct by (offset, now, slot)")
 	server.VerifSetStepping(true)
 	defer server.VerifSetStepping(false)
 	glow.SetCurrentTimeslot(0)
 	temp := ref.KeyFromSeed([]byte("c20-temp"))
 	gca := ref.KeyFromSeed([]byte("c20-gca"))
 	dev := ref.KeyFromSeed([]byte("c20-dev"))
-	dir := world.NewServerDir(temp.Pub)
-	defer os.RemoveAll(dir)
-	s, err := world.StartServer(dir)
-	if err != nil {
-		t.Fatal(err)
-	}
-	defer func() {
-		glow.SetCurrentTimeslot(0)
-		s.Close()
-		world.StopAllLeaked()
-	}()
-	if st, body, err := s.Register(gca.Pub, temp); err != nil || st != 200 {
-		t.Fatalf("register: %v %d %s", err, st, body)
-	}
 	a := ref.Auth{ShortID: 7, PublicKey: dev.Pub, Capacity: math.MaxUint64 / 200, Latitude: 1, Longitude: 2}
 	a.Sig = ref.Sign(gca, a.SigningBytes())
-	if st, body, err := s.Authorize(a); err != nil || st != 200 {
-		t.Fatalf("authorize: %v %d %s", err, st, body)
+	type c20srv struct {
+		s    *world.Server
+		off  uint32
+		used map[uint32]bool
 	}
-	used := map[uint32]bool{}
+	var servers []*c20srv
+	defer func() {
+		glow.SetCurrentTimeslot(0)
+		for _, x := range servers {
+			x.s.Close()
+			os.RemoveAll(x.s.Dir)
+		}
+		world.StopAllLeaked()
+	}()
+	for _, off := range []uint32{0, c20Top} {
+		dir := world.NewServerDir(temp.Pub)
+		if off != 0 {
+			// the window offset is restored from the label of the last archived week
+			w := ref.Week{Offset: off - 2016}
+			if err := os.WriteFile(dir+"/allDeviceStats.dat", w.Encode(), 0644); err != nil {
+				t.Fatal(err)
+			}
+			glow.SetCurrentTimeslot(off + 100)
+		}
+		s, err := world.StartServer(dir)
+		if err != nil {
+			if off != 0 {
+				// a server that insists on an archive starting at week 0 cannot be
+				// brought to the top of the range this way; that is not a violation
+				ev.Label("c20:top-window-server-not-constructible")
+				os.RemoveAll(dir)
+				continue
+			}
+			t.Fatal(err)
+		}
+		servers = append(servers, &c20srv{s: s, off: off, used: map[uint32]bool{}})
+		if s.S.VerifSnapshot().Offset != off {
+			if off != 0 {
+				ev.Label("c20:top-window-server-not-constructible")
+				servers = servers[:len(servers)-1]
+				s.Close()
+				os.RemoveAll(dir)
+				continue
+			}
+			t.Fatalf("C20: fresh server has offset %d", s.S.VerifSnapshot().Offset)
+		}
+		if st, body, err := s.Register(gca.Pub, temp); err != nil || st != 200 {
+			t.Fatalf("register: %v %d %s", err, st, body)
+		}
+		if st, body, err := s.Authorize(a); err != nil || st != 200 {
+			t.Fatalf("authorize: %v %d %s", err, st, body)
+		}
+	}
 	rapid.Check(t, func(t *rapid.T) {
+		x := servers[rapid.IntRange(0, len(servers)-1).Draw(t, "server")]
+		s, off, used := x.s, x.off, x.used
 		var now uint32
-		switch rapid.IntRange(0, 4).Draw(t, "nowClass") {
+		switch rapid.IntRange(0, 5).Draw(t, "nowClass") {
 		case 0:
 			now = rapid.Uint32Range(0, 500).Draw(t, "now")
 		case 1:
@@ -104,46 +145,55 @@ func TestC20AcceptanceNoWrap(t *testing.T) {
 		case 2:
 			now = 1<<31 - 250 + rapid.Uint32Range(0, 500).Draw(t, "nowMid")
 		case 3:
-			now = rapid.Uint32Range(3600, 4500).Draw(t, "nowEdge")
+			now = off + rapid.Uint32Range(3600, 4500).Draw(t, "nowEdge") // wraps for the top window: fine, any value is a clock value
+		case 4:
+			now = off - 500 + rapid.Uint32Range(0, 4800).Draw(t, "nowAroundWindow")
 		default:
 			now = rapid.Uint32().Draw(t, "nowAny")
 		}
 		var slot uint32
-		switch rapid.IntRange(0, 3).Draw(t, "slotClass") {
+		switch rapid.IntRange(0, 4).Draw(t, "slotClass") {
 		case 0:
-			slot = rapid.Uint32Range(0, 4031).Draw(t, "slot")
+			slot = off + rapid.Uint32Range(0, 4031).Draw(t, "slot")
 		case 1:
 			// the slot a wrapped uint32 comparison would consider close
 			slot = now + rapid.Uint32Range(0, 864).Draw(t, "d") - 432
 		case 2:
-			slot = rapid.Uint32Range(0, 4500).Draw(t, "slotEdge")
+			slot = off - 300 + rapid.Uint32Range(0, 4800).Draw(t, "slotEdge")
+		case 3:
+			// inside the window and within reach of the clock, if there is such a slot
+			slot = now + rapid.Uint32Range(0, 864).Draw(t, "dIn") - 432
+			if int64(slot) < int64(off) || int64(slot) >= int64(off)+4032 {
+				slot = off + rapid.Uint32Range(0, 4031).Draw(t, "slotIn")
+			}
 		default:
 			slot = rapid.Uint32().Draw(t, "slotAny")
 		}
-		p := c20Pair{Now: now, Slot: slot, Power: 100 + uint64(rapid.Uint32Range(0, 1000).Draw(t, "power"))}
+		p := c20Pair{Offset: off, Now: now, Slot: slot, Power: 100 + uint64(rapid.Uint32Range(0, 1000).Draw(t, "power"))}
 		lastCase(p)
 		ev.Eval(1)
 		glow.SetCurrentTimeslot(now)
 		before := s.S.VerifSnapshot()
-		if before.Offset != 0 {
-			t.Fatalf("C20: harness assumption broken: offset moved to %d without a granted step", before.Offset)
+		if before.Offset != off {
+			t.Fatalf("C20: harness assumption broken: offset moved from %d to %d without a granted step", off, before.Offset)
 		}
 		r := ref.SignedReport(dev, 7, slot, p.Power)
 		if err := s.SendUDP(r.Encode()); err != nil {
 			t.Fatalf("C20: %v (panics: %+v)", err, server.VerifPanics())
 		}
 		if ps := server.VerifPanics(); len(ps) > 0 {
-			t.Fatalf("C20: server panicked on now=%d slot=%d: %+v", now, slot, ps)
+			t.Fatalf("C20: server panicked on offset=%d now=%d slot=%d: %+v", off, now, slot, ps)
 		}
 		after := s.S.VerifSnapshot()
 		dist := int64(slot) - int64(now)
 		if dist < 0 {
 			dist = -dist
 		}
-		wantAccept := dist <= 432 && int64(slot) < 4032 && !used[slot]
+		inWindow := int64(slot) >= int64(off) && int64(slot) < int64(off)+4032
+		wantAccept := dist <= 432 && inWindow && !used[slot]
 		var changed bool
-		if int64(slot) < 4032 {
-			changed = after.Reports[7][slot] != before.Reports[7][slot]
+		if inWindow {
+			changed = after.Reports[7][slot-off] != before.Reports[7][slot-off]
 		}
 		total := 0
 		for i := range after.Reports[7] {
@@ -152,18 +202,18 @@ func TestC20AcceptanceNoWrap(t *testing.T) {
 			}
 		}
 		if wantAccept {
-			if !changed || total != 1 || after.Reports[7][slot].PowerOutput != p.Power {
-				t.Fatalf("C20: now=%d slot=%d (distance %d, inside window): report must be recorded; changed=%v slotsChanged=%d", now, slot, dist, changed, total)
+			if !changed || total != 1 || after.Reports[7][slot-off].PowerOutput != p.Power {
+				t.Fatalf("C20: offset=%d now=%d slot=%d (distance %d, inside window): report must be recorded; changed=%v slotsChanged=%d", off, now, slot, dist, changed, total)
 			}
 			used[slot] = true
-		} else if !used[slot] || int64(slot) >= 4032 {
+		} else if !used[slot] || !inWindow {
 			if total != 0 {
-				t.Fatalf("C20: now=%d slot=%d (distance %d): report must be ignored but %d slot(s) changed - wrap-around in the window comparison?", now, slot, dist, total)
+				t.Fatalf("C20: offset=%d now=%d slot=%d (distance %d): report must be ignored but %d slot(s) changed - wrap-around in the window comparison?", off, now, slot, dist, total)
 			}
 		}
 		extreme := now <= 1000 || now >= math.MaxUint32-1000 || slot >= math.MaxUint32-1000
 		if extreme {
-			ev.NonTrivial(fmt.Sprintf("c20|pair|%d|%d", now, slot))
+			ev.NonTrivial(fmt.Sprintf("c20|pair|%d|%d|%d", off, now, slot))
 			ev.Label("c20:pair-at-uint32-extreme")
 			if wantAccept {
 				ev.Sample("c20:accepted-at-extreme", p)
@@ -173,6 +223,9 @@ func TestC20AcceptanceNoWrap(t *testing.T) {
 		}
 		if wantAccept {
 			ev.Label("c20:pair-accepted")
+			if off != 0 {
+				ev.Label("c20:pair-accepted-in-top-window")
+			}
 		}
 	})
 }
